@@ -473,7 +473,39 @@ class FamWorld:
         if pre_fn is not None and not pre_fn(s, args):
             return "skip:precondition"
         sib = self._siblings_before(fam, s)
-        _, e = _call(OPS[name][2], s, args)
+        # a read-only argument may be the other party itself (e.g. copy.scale(0.5, meta_sequence=original), as the
+        # library's own tests do): the operation is applied to this family and must leave the argument's value alone
+        ref = ev.get("ref")
+        ref_fam = ref_seq = ref_before = None
+        if ref is not None and name in ("scale", "equals") and len(self.fams) > 1:
+            ref_fam = self.fams[ref["fam"] % len(self.fams)]
+            rs = ref_fam.seqs()
+            if ref_fam is fam or not rs or ref_fam.it is not None:
+                ref_fam = None
+            else:
+                ref_seq = rs[ref.get("target", 0) % len(rs)]
+                try:
+                    ref_before = canon_views(ref_seq)
+                except Unreadable:
+                    ref_fam = None
+        if ref_fam is not None:
+            if name == "scale":
+                _, e = _call(s.scale, args["factor"], ref_seq, args.get("q", False))
+            else:
+                _, e = _call(s.equals, ref_seq)
+            self.stats[f"reach_ref/{name}_with_other_family_as_argument"] += 1
+            try:
+                ref_after = canon_views(ref_seq)
+            except Unreadable as u:
+                ref_after = ("unreadable", str(u))
+            if self.prop == "C16" and ref_after != ref_before:
+                raise _V(Violation("ALIASED", f"{name} on family #{fam.index} ({fam.kind}, {fam.route}) with a sequence of family "
+                                   f"#{ref_fam.index} ({ref_fam.kind}, {ref_fam.route}) as read-only argument changed that sequence: "
+                                   f"{first_diff(list(ref_before), list(ref_after))}"[:700],
+                                   {"route": _relation(fam, ref_fam), "op": name + "(other as argument)"}))
+            ref_fam.snap = ref_fam.snapshot()   # being read may regenerate a view of the argument (flags), not its value
+        else:
+            _, e = _call(OPS[name][2], s, args)
         self.stats[f"op/{name}"] += 1
         self.stats[f"reach_kind_x_op/{fam.kind}|{name}"] += 1
         if e is not None:
@@ -876,11 +908,19 @@ def _gen_act(rng, world, fi, fam, inplace_bias):
                 "args": {"msg": {"t": "note_on", "ch": 0, "time": rng.randrange(0, d + 1), "note": rng.randrange(40, 90),
                                  "velocity": rng.randrange(1, 128)}}}
     args = OPS[name][1](rng, s)
+    ref = None
     if name == "scale":
         args = {"factor": rng.choice([1, 2, 2, 3, 4]), "q": rng.random() < 0.3}
+        if world.prop == "C16" and rng.random() < 0.3:
+            args = {"factor": 0.5, "q": rng.random() < 0.5, "meta": rng.choice([None, "self"])}
+        if world.prop == "C16" and len(world.fams) > 1 and rng.random() < 0.5:
+            ref = {"fam": rng.randrange(len(world.fams)), "target": rng.randrange(8)}
     if name == "transpose":
         args = {"by": rng.choice([1, 2, 3, 5, 7, -1, -2, -5, -7, 11, 4, -4])}
-    return {"op": "act", "fam": fi, "target": target, "name": name, "args": args}
+    ev = {"op": "act", "fam": fi, "target": target, "name": name, "args": args}
+    if ref is not None:
+        ev["ref"] = ref
+    return ev
 
 
 def _gen_derive(rng, world, fi, fam, prop):
